@@ -58,7 +58,9 @@ def language_possible(tables, info):
             return True
         if root is not None:
             local = root.split("|")[-1]
-            if l["root"] and (l["root"] == root or l["root"] == local):
+            # root element: exact name, or equal local names (the table spells DRMREL's root with a prefix, "o-ex:rights";
+            # a namespace-aware parser delivers "namespace|local")
+            if l["root"] and (l["root"] == root or l["root"] == local or l["root"].split(":")[-1] == local):
                 return True
             if "|" in root and l["ns"] >= 0:
                 ns0 = tables["tables"][str(l["ns"])]["rows"][0][0]
